@@ -235,6 +235,8 @@ class VM:
                 r = self.read_at(m, cell, path)
                 if isinstance(r, Ref): cell, path = r.cell, list(r.path)
                 elif isinstance(r, SliceRef) and r.shape is None: cell, path = r.cell, list(r.path) + [('sub', r.start, r.start + r.count)]
+                elif isinstance(r, Struct) and r.ty == 'Box' and r.f and isinstance(r.f[0], Struct) and r.f[0].f and isinstance(r.f[0].f[0], Ref):
+                    b = r.f[0].f[0]; cell, path = b.cell, list(b.path)
                 else: raise VMError('deref of %r at %s' % (r, place))
             elif k == 'field':
                 if pend_variant is not None: path.append(('vf', pend_variant, p[1])); pend_variant = None
@@ -287,7 +289,10 @@ class VM:
             tbl = {'INFINITY': math.inf, 'NEG_INFINITY': -math.inf, 'NAN': math.nan, 'MAX': 1.7976931348623157e308, 'MIN': -1.7976931348623157e308,
                    'EPSILON': 2.220446049250313e-16, 'MIN_POSITIVE': 2.2250738585072014e-308}
             if nm in tbl: return self.alg.const(tbl[nm])
-            ctbl = {'PI': math.pi, 'LN_2': math.log(2), 'E': math.e, 'SQRT_2': math.sqrt(2)}
+            ctbl = {'PI': math.pi, 'LN_2': math.log(2), 'E': math.e, 'SQRT_2': math.sqrt(2), 'TAU': 6.283185307179586, 'FRAC_PI_2': 1.5707963267948966, 'FRAC_PI_3': 1.0471975511965979,
+                    'FRAC_PI_4': 0.7853981633974483, 'FRAC_PI_6': 0.5235987755982989, 'FRAC_PI_8': 0.39269908169872414, 'FRAC_1_PI': 0.3183098861837907, 'FRAC_2_PI': 0.6366197723675814,
+                    'FRAC_2_SQRT_PI': 1.1283791670955126, 'FRAC_1_SQRT_2': 0.7071067811865476, 'LN_10': 2.302585092994046, 'LOG2_E': 1.4426950408889634, 'LOG10_E': 0.4342944819032518,
+                    'LOG2_10': 3.321928094887362, 'LOG10_2': 0.3010299956639812}
             if nm in ctbl: return self.alg.const(ctbl[nm])
         if t.startswith('"'): return Str(_unescape(t[1:-1]))
         if t.startswith('b"'): return Opaque(t)
@@ -461,7 +466,8 @@ class VM:
             return v
         if kind == 'IntToInt':
             v = _b2i(v)
-            if isinstance(v, Enum): v = v.idx
+            if isinstance(v, Enum):
+                tbl = self.mir.enum_discr.get(v.ty); v = tbl[v.name] if tbl and v.name in tbl else v.idx
             if ty not in INT_RANGES: raise Unmodelled('IntToInt to ' + ty)
             lo, hi = INT_RANGES[ty]
             if not is_sym(v):
@@ -514,7 +520,9 @@ class VM:
             return Ref(cell, path)
         if k == 'discriminant':
             v = self.read_place(m, fid, rv[1])
-            if isinstance(v, Enum): return v.idx
+            if isinstance(v, Enum):
+                tbl = self.mir.enum_discr.get(v.ty)
+                return tbl[v.name] if tbl and v.name in tbl else v.idx
             if isinstance(v, Coro): return v.state
             if isinstance(v, bool): return int(v)
             raise VMError('discriminant of %r' % (v,))
@@ -595,7 +603,14 @@ class VM:
             hits = []
             if not hits:
                 hits = lookup(None, tb, meth)      # trait default method
-                if len(hits) == 1: return mir.get(hits[0])
+                if len(hits) == 1:
+                    # the provided method is the right target only if the receiver's impl does not override it: for a receiver whose impl is not
+                    # known (`dyn Trait`, an uninstantiated generic parameter) an overriding impl anywhere in the crate makes the call ambiguous
+                    idx = mir.index()
+                    known = any(k[0] == xb and k[1] == tb for k in idx)
+                    overriders = [k for k in idx if k[1] == tb and k[2] == meth and k[0] is not None and idx[k]]
+                    if not known and overriders: return None
+                    return mir.get(hits[0])
             return None
         base = strip_generics(c)
         segs = [s.strip() for s in base.split('::') if s.strip()]
@@ -645,6 +660,24 @@ class VM:
                 first_err = first_err or e; continue
             if out is not NotImplemented: return out
         fn = self.resolve_callee(callee)
+        if fn is None:
+            md = re.match(r'^<dyn (\w+)(?:<.*>)?(?: \+ [\w\' ]+)* as (\w+)(?:<.*>)?>::(\w+)$', callee)
+            if md and md.group(1) == md.group(2) and args:
+                rv = args[0]; hops = 0
+                while hops < 6:
+                    if isinstance(rv, Ref): rv = self.read_at(m, rv.cell, rv.path)
+                    elif isinstance(rv, Struct) and rv.ty == 'Box' and rv.f and isinstance(rv.f[0], Struct) and rv.f[0].f: rv = rv.f[0].f[0]
+                    else: break
+                    hops += 1
+                ty = getattr(rv, 'ty', None)
+                if isinstance(rv, (Struct, Enum)) and ty and ty != 'Box':
+                    a0 = args[0]
+                    if isinstance(a0, Ref):
+                        inner = self.read_at(m, a0.cell, a0.path)
+                        if isinstance(inner, Struct) and inner.ty == 'Box' and inner.f and isinstance(inner.f[0], Struct) and inner.f[0].f and isinstance(inner.f[0].f[0], Ref): a0 = inner.f[0].f[0]
+                    elif isinstance(a0, Struct) and a0.ty == 'Box': a0 = a0.f[0].f[0]
+                    fn2 = self.resolve_callee('<%s as %s>::%s' % (ty, md.group(2), md.group(3)))
+                    if fn2 is not None: return self.exec_fn(m, fn2, [a0] + list(args[1:]))
         if fn is None:
             if first_err is not None: raise first_err
             raise Unmodelled('callee %s (at %s)' % (callee, span))
@@ -781,7 +814,8 @@ class VM:
                     bb, i = st.b, 0; continue
                 if k == 'switch':
                     c = self.operand(m, fid, st.a, fn)
-                    if isinstance(c, Enum): c = c.idx
+                    if isinstance(c, Enum):
+                        tbl = self.mir.enum_discr.get(c.ty); c = tbl[c.name] if tbl and c.name in tbl else c.idx
                     if isinstance(c, bool): c = int(c)
                     if not is_sym(c):
                         tgt = st.c
